@@ -89,6 +89,10 @@ func (s *StakingSmcUtil) CreateGenesisValidator(statedb *state.StateDB, header *
 	selfDelegate, k4 := big.NewInt(0).SetString(_selfDelegate, 10)
 
 	name := []byte(_name)
+	if len(name) < 32 {
+		// names shorter than 32 bytes are zero padded (slicing past len panics)
+		name = append(name, make([]byte, 32-len(name))...)
+	}
 	var arrName [32]byte
 	copy(arrName[:], name[:32])
 
